@@ -443,6 +443,15 @@ C15_run(H) ==
     /\ (ff = {} /\ H.cancel < 0) => H.out.ok     \* in particular a failing public-IP lookup never fails the request
     /\ H.out.ok => (H.out.pub = IF H.par.public_ip /\ H.par.pub_mode = "ok" THEN "203.0.113.77" ELSE "")
 
+\* C01 through the HTTP API: every reported run is the run of probes that left during THIS request (same source port as a wire run of
+\* the trace, every addressed hop backed by a packet delivered to that run's capture handle from that address)
+C01_http(H) ==
+    H.out.ok => \A r \in DOMAIN H.out.runs :
+        \E w \in WireRuns(H) :
+            /\ SentOfRun(H, w)[1].p.sport = H.out.runs[r].sport \/ SentOfRun(H, w)[1].p.kind = "echo_req"
+            /\ \A k \in DOMAIN H.out.runs[r].hops :
+                  H.out.runs[r].hops[k].addr # "" => \E i \in DOMAIN H.del : H.del[i].run = w /\ PktOf(H, H.del[i]).src = H.out.runs[r].hops[k].addr
+
 \* C10 at request level (RunTraceroute / the HTTP handler): whatever ended the request - success, failure, cancellation while probes
 \* were being paced - no goroutine it started is still alive once it has returned, and every handle it opened was closed exactly once
 C10_req(H) ==
@@ -452,28 +461,35 @@ C10_req(H) ==
 
 \* C19: parameters honoured exactly or rejected (expect = the meaning assigned by GenRun!Expect)
 C19_run(H) ==
-    LET ex == H.par.expect IN
+    LET ex == H.par.expect
+        Good(w) ==
+            LET s == SentOfRun(H, w)
+                e2e == IsE2E(H, w)                                      \* an end-to-end probe: one packet at the last TTL, always SYN for TCP
+                kind == IF e2e /\ ex.kind = "sack" THEN "syn" ELSE ex.kind
+            IN /\ {s[j].ttl : j \in DOMAIN s} = (IF e2e THEN {ex.max} ELSE ex.min..ex.max)
+               /\ Len(s) = (IF e2e THEN 1 ELSE ex.max - ex.min + 1)
+               /\ \A j \in DOMAIN s :
+                     /\ s[j].p.dst = ex.addr
+                     /\ (kind # "echo_req" => s[j].p.dport = ex.port)
+                     /\ CASE kind = "echo_req" -> s[j].p.kind = "echo_req"
+                          [] kind = "udp" -> s[j].p.kind = "udp"
+                          [] kind = "syn" -> s[j].p.kind = "tcp" /\ s[j].p.flags = SYN
+                          [] kind = "sack" -> s[j].p.kind = "tcp" /\ HasFlag(s[j].p, ACK) /\ ~HasFlag(s[j].p, SYN)
+                          [] OTHER -> FALSE
+    IN
     /\ H.out.panic = ""
     /\ ex.reject => ~H.out.ok
     \* an accepted parameter set towards a routable address is EXECUTED (no fault is injected in these scenarios): "rejected or executed"
     /\ (~ex.reject /\ ex.addr \notin {"255.255.255.255", "fe80::1"} /\ Len(H.flt) = 0 /\ H.cancel < 0) => H.out.ok
     /\ H.out.ok =>
          /\ WireRuns(H) # {}
-         /\ \A w \in WireRuns(H) :
-              LET s == SentOfRun(H, w)
-                  e2e == IsE2E(H, w)                                      \* an end-to-end probe: one packet at the last TTL, always SYN for TCP
-                  kind == IF e2e /\ ex.kind = "sack" THEN "syn" ELSE ex.kind
-              IN
-              /\ {s[j].ttl : j \in DOMAIN s} = (IF e2e THEN {ex.max} ELSE ex.min..ex.max)
-              /\ Len(s) = (IF e2e THEN 1 ELSE ex.max - ex.min + 1)
-              /\ \A j \in DOMAIN s :
-                    /\ s[j].p.dst = ex.addr
-                    /\ (kind # "echo_req" => s[j].p.dport = ex.port)
-                    /\ CASE kind = "echo_req" -> s[j].p.kind = "echo_req"
-                         [] kind = "udp" -> s[j].p.kind = "udp"
-                         [] kind = "syn" -> s[j].p.kind = "tcp" /\ s[j].p.flags = SYN
-                         [] kind = "sack" -> s[j].p.kind = "tcp" /\ HasFlag(s[j].p, ACK) /\ ~HasFlag(s[j].p, SYN)
-                         [] OTHER -> FALSE
+         \* alone on the wire: every run is this request's. With other requests in flight on the same server: as many runs of the wire
+         \* as the request asked for are executed exactly as it states, and the answer reports that many
+         /\ IF H.par.others = 0 THEN \A w \in WireRuns(H) : Good(w)
+            ELSE /\ Cardinality({w \in WireRuns(H) : ~IsE2E(H, w) /\ Good(w)}) >= H.par.queries
+                 /\ Len(H.out.runs) = H.par.queries
+                 /\ \A r \in DOMAIN H.out.runs : Len(H.out.runs[r].hops) <= ex.max - ex.min + 1
+                        /\ (Len(H.out.runs[r].hops) = ex.max - ex.min + 1 \/ H.out.runs[r].hops[Len(H.out.runs[r].hops)].ttl < ex.max)
 
 \* C17 over the wire: hop k of every reported run is router k of the scripted path (expect17.routers), emptied iff it is
 \* private and skipping is on; names only where enrichment is on and the hop survives
